@@ -153,6 +153,9 @@ pub struct NetProgram {
     pub end_mode: u8,
     /// order in which the run result is dropped: 0 as a whole, 1 app first, 2 profiler first
     pub drop_order: u8,
+    /// connect calls issued by the external driver while the simulation is paused at `at_ns` (closing chains into rings)
+    #[serde(default)]
+    pub late_links: Vec<(u64, Link)>,
 }
 
 // ---------------------------------------------------------------- trace
@@ -634,6 +637,11 @@ impl ProcessingElement for ScriptPe {
         if kind >= SELF_KIND {
             return Some(msg);
         }
+        // mode 4: a panic outside the module harness (it unwinds out of Runtime::run)
+        if self.spec.mode == 4 && uid % self.spec.m.max(1) == self.spec.r % self.spec.m.max(1) {
+            let _held = msg;
+            panic!("scripted panic in processing element {} of module {}", self.id, self.m);
+        }
         match self.spec.mode {
             1 => {
                 msg.header_mut().kind = kind.wrapping_add(1) & 0x0fff;
@@ -1004,7 +1012,41 @@ pub fn run_net(prog: &NetProgram, opts: &RunOpts) -> NetResult {
             drop(rt);
             return (build, None, false);
         }
-        let result = rt.run();
+        if prog.late_links.is_empty() {
+            let result = rt.run();
+            return (build, Some(result), true);
+        }
+        // stepped: pause, let the driver connect more gates, continue
+        let mut rt = rt;
+        rt.start();
+        let mut late = prog.late_links.clone();
+        late.sort_by_key(|l| l.0);
+        for (at, l) in late.iter().take(8) {
+            rt.dispatch_events_until(SimTime::from_duration(Duration::from_nanos(*at)));
+            let find = |m: u32, g: u32| -> Option<GateRef> {
+                let m = m as usize % nmod.max(1);
+                let f = &flat[m];
+                if f.is_empty() {
+                    return None;
+                }
+                let (name, _, pos) = &f[g as usize % f.len()];
+                rt.app.get(&ObjectPath::from(module_path(&prog, m).as_str())).and_then(|r| r.gate(name, *pos))
+            };
+            if let (Some(a), Some(b)) = (find(l.am, l.ag), find(l.bm, l.bg)) {
+                let ch = l.chan.as_ref().map(to_channel);
+                // only legal connects are issued here (a rejected one would leave the gate locked)
+                let free = |g: &GateRef| g.kind() != GateKind::Transit;
+                if !std::sync::Arc::ptr_eq(&a, &b) && free(&a) && free(&b) {
+                    if l.flip {
+                        b.connect(a, ch);
+                    } else {
+                        a.connect(b, ch);
+                    }
+                }
+            }
+        }
+        rt.dispatch_all();
+        let result = rt.finish();
         (build, Some(result), true)
     }));
 
